@@ -364,6 +364,7 @@ class Compose(Variable):
             name = self._vars[-1].name
             # name = "_".join(var.name for var in args)
         var_context.update(kwargs)
+        var_context["name"] = name
 
         super(Compose, self).__init__(
             name=name, getter=getter
